@@ -13,7 +13,7 @@ from . import sources as S
 
 VERIF = os.path.dirname(os.path.dirname(os.path.abspath(__file__)))
 SPEC = os.path.join(VERIF, "spec")
-WORK = os.path.join(VERIF, ".work")
+WORK = os.path.join(os.environ.get("VERIF_OUT", VERIF), ".work")
 
 TLC_CMD = ["java", "-XX:+UseParallelGC", "-Xmx12g", "-cp",
            "/opt/veriftools/tla/tla2tools.jar:/opt/veriftools/tla/CommunityModules-deps.jar", "tlc2.TLC"]
